@@ -15,7 +15,7 @@ EXPLANATION = ('(R16.1) on the state graph of every lookup/write/touch entry poi
                'directory-accessor + validated key, directory + listed name, temp dir + listed name, directory/temp dir '
                'themselves, parent of directory + key); (R16.5) the listed names maintenance may unlink or re-stamp passed a '
                'dot-prefix rejection on the raw name bytes (= R17.2). Names special to a particular OS beyond separators are not decided.')
-FLOORS = {'R16.1': 10, 'R16.2': 5, 'R16.3': 1, 'R16.4': 20, 'R16.5': 1}
+FLOORS = {'R16.1': 10, 'R16.2': 5, 'R16.3': 1, 'R16.4': 20, 'R16.5': 1, 'R16.6': 1}
 
 MUT_OR_LIST = prims.MUTATING | {'list_dir'}
 
@@ -262,6 +262,14 @@ def r16_5(ctx):
             for i in c17.r17_2(ctx) if 'dot' in i['key'] or 'push' in i['key']]
 
 
+def r16_6(ctx):
+    """"nothing inside nested subdirectories": every directory a shard object carries through the public sharded
+    operations is exactly <the cache's base directory>/<shard name(id)> -- never a path that still has a key name or
+    another shard's name pushed on it (= the shard-path instance of R12.5)."""
+    from rules import c12
+    return [inst('R16.6', i['key'].split('|', 1)[1], i['ok'], i['detail'], path=i.get('path') or []) for i in c12.r12_5(ctx) if 'shard path' in i['key']]
+
+
 def run(ctx):
     from runner import collect
-    return collect(ctx, r16_1, r16_2_3, r16_4, r16_5)
+    return collect(ctx, r16_1, r16_2_3, r16_4, r16_5, r16_6)
